@@ -216,7 +216,7 @@ def lattice_cases(draw, n: int, sam: bool):
 
 @st.composite
 def path_cases(draw, min_n: int, max_n: int):
-    sam = draw(st.integers(0, 2)) == 0
+    sam = draw(st.integers(0, 2)) == 0 and min_n <= 6
     if sam:
         game = draw(sam_games(min_n, min(max_n, 6)))
         comp = draw(st.sampled_from(["sam_apx_1", "sam_apx_3", "sam_apx_10"]))
